@@ -612,6 +612,14 @@ func (f *FuncCFG) reach(from Point, o *searchOpts, target func(pt Point, atExit 
 						}
 						continue
 					}
+					// a constant condition (a flag parameter of a spliced helper bound to true/false at the
+					// call): the edge that needs the other value cannot be taken
+					if tv, has := f.Info.Types[ft.Atom]; has && tv.Value != nil && tv.Value.Kind() == constant.Bool {
+						if constant.BoolVal(tv.Value) != ft.Pol {
+							contradiction = true
+						}
+						continue
+					}
 					id, isId := ast.Unparen(ft.Atom).(*ast.Ident)
 					if !isId {
 						continue
@@ -3869,4 +3877,47 @@ func constructorLiteral(p *Prog, info *types.Info, call *ast.CallExpr) (*ast.Com
 		}
 	}
 	return cl, isPtr, b
+}
+
+// constBoolParams: the boolean parameters of spliced helpers that are bound to a constant at the
+// (only) call spliced into this graph: `o.forEach(false, consumer)` fixes `reverse` inside the spliced
+// body. Passed as searchOpts.InitFacts, reach then follows only the branch that call can take.
+func (f *FuncCFG) constBoolParams() map[types.Object]bool {
+	out := map[types.Object]bool{}
+	conflict := map[types.Object]bool{}
+	seen := map[*region]bool{}
+	for _, reg := range f.regionOf {
+		for ; reg != nil; reg = reg.parent {
+			if seen[reg] || reg.pseudo || reg.fd == nil || reg.call == nil {
+				continue
+			}
+			seen[reg] = true
+			ps := paramObjs(f.Info, reg.fd)
+			args := reg.call.Args
+			// a package-level function spliced for a method value keeps its argument order; a receiver-role
+			// parameter is an ordinary argument
+			for i, po := range ps {
+				if po == nil || i >= len(args) {
+					continue
+				}
+				b, isB := po.Type().Underlying().(*types.Basic)
+				if !isB || b.Kind() != types.Bool {
+					continue
+				}
+				tv, ok := f.Info.Types[args[i]]
+				if !ok || tv.Value == nil {
+					continue
+				}
+				v := tv.Value.String() == "true"
+				if old, has := out[po]; has && old != v {
+					conflict[po] = true
+				}
+				out[po] = v
+			}
+		}
+	}
+	for po := range conflict {
+		delete(out, po)
+	}
+	return out
 }
